@@ -926,7 +926,8 @@ func (c *Client) clockUpdate(update *MsgSrvUpdate, queueLocked bool) bool {
 
 	checksumTime := mTime
 	if c.SyncShallowClocks {
-		checksumTime = am.NewTime(checksumTime, c.trackedStateIdxs)
+		// shallow clocks checksum the activity (0-1), like the server does
+		checksumTime = am.NewTime(checksumTime, checksumTime.ActiveStates(nil))
 	}
 	check := Checksum(checksumTime.Sum(nil), qTick, machTick)
 
